@@ -466,15 +466,14 @@ fn emit_tx(tr: &mut Trace, abi: &Abi, fs: &ScriptedFs, transport: &str, opname: 
     let written: Vec<Value> = o.written.iter().map(|(a, l)| json!([a, l])).collect();
     let wsegs: Vec<Value> = o.wsegs.iter().map(|(a, l)| json!([a, l])).collect();
     let ev = json!({"e": "Tx", "tr": transport, "op": opname, "gen": gen, "req": b.req, "calls": calls,
-        "out": {"ret": o.ret, "nmsgs": o.msgs.len(), "canary_ok": o.canary_ok, "tail_untouched": o.tail_untouched,
+        "out": {"ret": o.ret, "retc": if o.ret.starts_with("ok") { "Ok" } else if o.ret.starts_with("err") { "Err" } else { "panic" }, "nmsgs": o.msgs.len(), "canary_ok": o.canary_ok, "tail_untouched": o.tail_untouched,
                 "written": written, "touched": touched, "dirty_reply": o.dirty_reply, "dirty_req": o.dirty_req, "wsegs": wsegs,
                 "msglens": o.msgs.iter().map(|m| m.len()).collect::<Vec<_>>()},
         "reply": reply, "x": extra});
     tr.emit(&ev);
 }
 
-fn main() {
-    let args: Vec<String> = std::env::args().collect();
+fn run_wf(args: &[String]) {
     let abi = Abi::load(&args[1]);
     let out = &args[2];
     let k = args.get(3).map(|s| s.parse::<usize>().unwrap()).unwrap_or(2);
@@ -516,4 +515,434 @@ fn main() {
     }
     tr.emit(&json!({"e": "End", "n": tr.n}));
     tr.flush();
+}
+
+// ------------------------------------------------------------------------------------------------
+// class mode: every request class exported by TLC from spec/WireFrame.tla, concretised k times
+
+struct ClassReq {
+    bytes: Vec<u8>,
+    cap: usize,
+    script: Ret,
+    unique: u64,
+}
+
+fn success_ret(rng: &mut Rng, abi: &Abi, op: &str, size_hint: usize) -> (Ret, usize) {
+    // a success result for `op` and the number of body bytes its reply carries
+    let sz = |s: &str| abi.size(s);
+    match op {
+        "LOOKUP" | "SYMLINK" | "MKNOD" | "MKDIR" | "LINK" => (Ret::Entry(rentry(rng)), sz("fuse_entry_out")),
+        "CREATE" => (Ret::Create { entry: rentry(rng), handle: Some(boundary(rng, 8)), opts: 0, passthrough: None }, sz("fuse_entry_out") + sz("fuse_open_out")),
+        "GETATTR" | "SETATTR" => (Ret::Attr(rstat(rng), rdur(rng)), sz("fuse_attr_out")),
+        "READLINK" => {
+            let n = rng.range(2, 300) as usize;
+            let mut b = vec![0u8; n];
+            rng.fill(&mut b);
+            (Ret::Bytes(b), n)
+        }
+        "GETXATTR" | "LISTXATTR" => {
+            if size_hint == 0 {
+                (Ret::XCount(boundary(rng, 4) as u32), sz("fuse_getxattr_out"))
+            } else {
+                let n = rng.range(2, size_hint.max(2) as u64) as usize;
+                let mut b = vec![0u8; n];
+                rng.fill(&mut b);
+                (Ret::Bytes(b), n)
+            }
+        }
+        "OPEN" | "OPENDIR" => (Ret::Open { handle: Some(boundary(rng, 8)), opts: 0, passthrough: None }, sz("fuse_open_out")),
+        "READ" => {
+            let mut b = vec![0u8; size_hint];
+            rng.fill(&mut b);
+            (Ret::Bytes(b), size_hint)
+        }
+        "WRITE" => (Ret::Count(boundary(rng, 4) as usize), sz("fuse_write_out")),
+        "STATFS" => (Ret::Statfs(unsafe { std::mem::zeroed() }), sz("fuse_statfs_out")),
+        "GETLK" => (Ret::Lock(FileLock { start: 1, end: 2, lock_type: 3, pid: 4 }), sz("fuse_lk_out")),
+        "BMAP" => (Ret::U64(boundary(rng, 8)), sz("fuse_bmap_out")),
+        "LSEEK" => (Ret::U64(boundary(rng, 8)), sz("fuse_lseek_out")),
+        "POLL" => (Ret::U32(boundary(rng, 4) as u32), sz("fuse_poll_out")),
+        "IOCTL" => (Ret::Ioctl { result: 7, data: vec![] }, sz("fuse_ioctl_out")),
+        "READDIR" | "READDIRPLUS" => {
+            let n = rng.range(0, 6) as usize;
+            let v = (0..n)
+                .map(|i| OwnedDirent { ino: boundary(rng, 8), offset: i as u64 + 1, type_: 4, name: rname(rng, 40), entry: rentry(rng) })
+                .collect();
+            (Ret::Dirents(v), size_hint)
+        }
+        "INIT" => (Ret::Init(0), size_hint),
+        _ => (Ret::Unit, 0),
+    }
+}
+
+fn concretise(abi: &Abi, rng: &mut Rng, c: &Value) -> Option<ClassReq> {
+    const MAXB: u64 = (1 << 20) + 4096;
+    let op = c["op"].as_str().unwrap();
+    let (sup, lenf, body, capc, fsres) = (c["sup"].as_str().unwrap(), c["lenf"].as_str().unwrap(), c["body"].as_str().unwrap(), c["cap"].as_str().unwrap(), c["fsres"].as_str().unwrap());
+    let unique = rng.next();
+    // opcode number and request structure
+    let (code, st): (u64, String) = match op {
+        "HOLE" => (*rng.pick(&[0u64, 7, 19, 50, 51, 52, 53, 100, 4096, 1_048_576, 436_207_616, 0x7fff_ffff, 0x8000_0000, 0xffff_ffff]), String::new()),
+        "INIT" => (abi.konst("FUSE_INIT"), "fuse_init_in_head".to_string()),
+        _ => (abi.konst(abi.op(op)["code"].as_str().unwrap()), abi.op(op)["body"].as_str().unwrap().to_string()),
+    };
+    let mut ssize = if st.is_empty() { 0 } else { abi.size(&st) };
+    if op == "SETXATTR" {
+        ssize = 8;
+    }
+    if sup == "lt40" {
+        let n = rng.below(40) as usize;
+        let mut h = Vals::new();
+        h.insert("len".into(), match lenf { "lt40" => rng.below(40), "eq" => n as u64, "gt" => rng.range(n as u64 + 1, MAXB), _ => rng.range(MAXB + 1, u32::MAX as u64) });
+        h.insert("opcode".into(), code);
+        h.insert("unique".into(), unique);
+        let mut b = abi.encode("fuse_in_header", &h);
+        b.truncate(n);
+        return Some(ClassReq { bytes: b, cap: 4096, script: Ret::Unit, unique: if n >= 16 { unique } else { 0 } });
+    }
+    // reply capacity is decided last (depends on the scripted result); first the window
+    let mut vals = Vals::new();
+    if !st.is_empty() {
+        for fl in abi.flat_fields(&st) {
+            vals.insert(fl.name.clone(), boundary(rng, fl.w));
+        }
+    }
+    let mut tail: Vec<u8> = Vec::new();
+    let mut size_hint = 0usize;
+    let name = |rng: &mut Rng| rname(rng, 64);
+    match abi_shape(op) {
+        "name1" | "st_name1" => {
+            tail.extend(name(rng));
+            if body != "no_nul" {
+                tail.push(0);
+            } else if rng.chance(1, 4) {
+                tail.clear();
+            }
+        }
+        "name2" | "st_name2" => {
+            tail.extend(name(rng));
+            match body {
+                "no_nul" => tail.extend(name(rng)),
+                "one_nul_at_end" => tail.push(0),
+                _ => {
+                    tail.push(0);
+                    tail.extend(name(rng));
+                    tail.push(0);
+                }
+            }
+        }
+        "setxattr" => {
+            let vlen = rng.range(0, 64) as usize;
+            let mut v = vec![1u8; vlen];
+            for b in v.iter_mut() {
+                *b = (rng.range(1, 255)) as u8;
+            }
+            tail.extend(name(rng));
+            if body != "no_nul" {
+                tail.push(0);
+                tail.extend(&v);
+                vals.insert("size".into(), if body == "size_mismatch" { vlen as u64 + rng.range(1, 9) } else { vlen as u64 });
+            } else {
+                vals.insert("size".into(), 0);
+            }
+        }
+        "bforget" | "removemapping" => {
+            let rec = if op == "BATCH_FORGET" { "fuse_forget_one" } else { "fuse_removemapping_one" };
+            let k = rng.range(0, 5);
+            for _ in 0..k {
+                let mut v = Vals::new();
+                for fl in abi.flat_fields(rec) {
+                    v.insert(fl.name.clone(), boundary(rng, fl.w));
+                }
+                tail.extend(abi.encode(rec, &v));
+            }
+            let count = match body {
+                "count_gt_payload" => k + rng.range(5, 9), // more than the tail plus any garbage behind the window supplies
+                "count_over_limit" => rng.range(70_000, u32::MAX as u64),
+                _ => k,
+            };
+            vals.insert("count".into(), count);
+        }
+        "write" => {
+            let n = rng.range(0, 300) as usize;
+            let mut v = vec![0u8; n];
+            rng.fill(&mut v);
+            tail.extend(&v);
+            vals.insert("size".into(), n as u64);
+        }
+        "ioctl" => {
+            let n = rng.range(0, 64) as usize;
+            let mut v = vec![0u8; n];
+            rng.fill(&mut v);
+            tail.extend(&v);
+            vals.insert("in_size".into(), if body == "in_size_gt_avail" { n as u64 + rng.range(1, 1 << 20) } else { n as u64 });
+            vals.insert("out_size".into(), 0);
+        }
+        "read" => {
+            size_hint = rng.range(2, 5000) as usize;
+            vals.insert("size".into(), size_hint as u64);
+        }
+        "readdir" => {
+            size_hint = rng.range(0, 5000) as usize;
+            vals.insert("size".into(), size_hint as u64);
+        }
+        "init" => {
+            vals.insert("major".into(), match body { "major_lt" => rng.below(7), "major_gt" => rng.range(8, u32::MAX as u64), _ => 7 });
+            let minor = *rng.pick(&[0u64, 4, 5, 22, 23, 31, 33, 38, 1000]);
+            vals.insert("minor".into(), minor);
+            size_hint = if body == "major_gt" { 64 } else if minor < 5 { 8 } else if minor < 23 { 24 } else { 64 };
+            vals.insert("flags".into(), rng.next() & 0xbfff_ffff); // no INIT_EXT: the 16-byte form is the whole request
+        }
+        _ => {}
+    }
+    if op == "GETXATTR" || op == "LISTXATTR" {
+        size_hint = *rng.pick(&[0usize, 64, 4096]);
+        vals.insert("size".into(), size_hint as u64);
+    }
+    // scripted result and reply capacity
+    let (okret, okbody) = success_ret(rng, abi, op, size_hint);
+    let script = if fsres == "err" { Ret::Err { os: rng.range(1, 133) as i32, kind: None } } else { okret };
+    let need = 16 + okbody;
+    let mut cap = match capc {
+        "c0" => 0,
+        "lt16" => rng.range(1, 15) as usize,
+        "eq16" => 16,
+        "mid" => {
+            if need <= 17 {
+                return None;
+            }
+            rng.range(17, need as u64 - 1) as usize
+        }
+        _ => need + rng.below(64) as usize,
+    };
+    if abi_shape(op) == "readdir" {
+        // "ok" = the requested size fits the reply buffer (available_bytes >= size); "size_gt_avail" = it does not
+        if body == "size_gt_avail" {
+            vals.insert("size".into(), cap as u64 + rng.range(1, 4096));
+        } else if body == "ok" {
+            match capc {
+                "c0" | "lt16" | "eq16" => {
+                    vals.insert("size".into(), rng.range(0, cap as u64));
+                }
+                _ => cap = 16 + size_hint + rng.below(64) as usize,
+            }
+        }
+    }
+    let mut sbytes = if st.is_empty() { vec![] } else { abi.encode(&st, &vals) };
+    sbytes.truncate(ssize);
+    let mut window: Vec<u8> = vec![0u8; 40];
+    if body == "st_short" {
+        let k = rng.below(ssize as u64) as usize;
+        window.extend(&sbytes[..k]);
+    } else {
+        window.extend(&sbytes);
+        window.extend(&tail);
+    }
+    let w = window.len() as u64;
+    let mut bytes = window.clone();
+    let len: u64 = match lenf {
+        "eq" => w,
+        "lt" => {
+            let extra = rng.range(1, 64) as usize;
+            let mut g = vec![0u8; extra];
+            rng.fill(&mut g);
+            for b in g.iter_mut() {
+                if *b == 0 {
+                    *b = 1; // garbage behind the window must not supply the missing NUL
+                }
+            }
+            bytes.extend(&g);
+            w
+        }
+        "ltst" => rng.range(40, 40 + ssize as u64 - 1),
+        "lt40" => rng.below(40),
+        "gt" => rng.range(bytes.len() as u64 + 1, MAXB),
+        _ => rng.range(MAXB + 1, u32::MAX as u64),
+    };
+    let mut h = Vals::new();
+    h.insert("len".into(), len);
+    h.insert("opcode".into(), code);
+    h.insert("unique".into(), unique);
+    h.insert("nodeid".into(), boundary(rng, 8));
+    h.insert("uid".into(), boundary(rng, 4));
+    h.insert("gid".into(), boundary(rng, 4));
+    h.insert("pid".into(), boundary(rng, 4));
+    bytes[..40].copy_from_slice(&abi.encode("fuse_in_header", &h));
+    Some(ClassReq { bytes, cap, script, unique })
+}
+
+fn abi_shape(op: &str) -> &'static str {
+    match op {
+        "LOOKUP" | "UNLINK" | "RMDIR" | "REMOVEXATTR" => "name1",
+        "MKNOD" | "MKDIR" | "LINK" | "CREATE" | "GETXATTR" => "st_name1",
+        "SYMLINK" => "name2",
+        "RENAME" | "RENAME2" => "st_name2",
+        "SETXATTR" => "setxattr",
+        "BATCH_FORGET" => "bforget",
+        "REMOVEMAPPING" => "removemapping",
+        "WRITE" => "write",
+        "IOCTL" => "ioctl",
+        "READ" => "read",
+        "READDIR" | "READDIRPLUS" => "readdir",
+        "INIT" => "init",
+        _ => "other",
+    }
+}
+
+fn hdr_json(bytes: &[u8], unique: u64) -> Value {
+    let g32 = |o: usize| if bytes.len() >= o + 4 { u32le(bytes, o) as u64 } else { 0 };
+    json!({"h": {"len": g32(0).to_string(), "opcode": g32(4).to_string(), "unique": unique.to_string(), "nodeid": "0", "uid": "0", "gid": "0", "pid": "0"},
+           "f": {}, "bits": {}, "num": {}, "names": [], "pay": pay(&[]), "list": [], "nbytes": bytes.len()})
+}
+
+fn run_one(server: &Server<Arc<ScriptedFs>>, fs: &ScriptedFs, pair: &SeqPair, rng: &mut Rng, tr: &str, bytes: &[u8], cap: usize, vu: bool) -> Outcome {
+    fs.take_log();
+    let mut cache = NullCache;
+    let vuo: Option<&mut dyn fuse_backend_rs::transport::FsCacheReqHandler> = if vu { Some(&mut cache) } else { None };
+    if tr == "fusedev" {
+        run_fusedev(server, bytes, cap, vuo, pair)
+    } else {
+        let rl = split_lens(rng, bytes.len(), 0);
+        let wl = split_lens(rng, cap, 0);
+        let roff = rng.below(4096);
+        let woff = rng.below(4096);
+        let gap = *rng.pick(&[0u64, 1, 64, 4096]);
+        run_virtio(server, bytes, &rl, &wl, roff, woff, gap, vuo)
+    }
+}
+
+fn run_classes(args: &[String]) {
+    let abi = Abi::load(&args[1]);
+    let mut tr = Trace::create(&args[2]);
+    let cases = std::fs::read_to_string(&args[4]).expect("cases");
+    let k = args.get(5).map(|s| s.parse::<usize>().unwrap()).unwrap_or(1);
+    let stride = args.get(6).map(|s| s.parse::<usize>().unwrap()).unwrap_or(1);
+    let mut rng = Rng::new(env_u64("VERIF_SEED", 1));
+    let fs = Arc::new(ScriptedFs::new("s"));
+    let server = Server::new(fs.clone());
+    let pair = SeqPair::new();
+    let mut skipped = 0usize;
+    for (i, line) in cases.lines().enumerate() {
+        if line.trim().is_empty() || (i + env_u64("VERIF_SEED", 1) as usize) % stride != 0 {
+            continue;
+        }
+        let case: Value = serde_json::from_str(line).expect("case json");
+        let c = &case["c"];
+        for _ in 0..k {
+            // every transaction starts from a server that has not negotiated anything unusual
+            let cr = match concretise(&abi, &mut rng, c) {
+                Some(x) => x,
+                None => {
+                    skipped += 1;
+                    continue;
+                }
+            };
+            fs.set(cr.script.clone());
+            let o = run_one(&server, &fs, &pair, &mut rng, c["tr"].as_str().unwrap(), &cr.bytes, cr.cap, c["vu"].as_bool().unwrap());
+            let b = Built { bytes: cr.bytes.clone(), req: hdr_json(&cr.bytes, cr.unique), script: cr.script.clone(), cap_hint: 0 };
+            let opname = c["op"].as_str().unwrap();
+            emit_tx(&mut tr, &abi, &fs, c["tr"].as_str().unwrap(), opname, "class", &b, &o, json!({"cap": cr.cap, "cls": c, "pred": case["o"]}));
+        }
+    }
+    tr.emit(&json!({"e": "End", "n": tr.n, "skipped": skipped}));
+    tr.flush();
+}
+
+// ------------------------------------------------------------------------------------------------
+// random mode: unconstrained byte strings and bit-flipped well-formed requests
+
+fn run_random(args: &[String]) {
+    let abi = Abi::load(&args[1]);
+    let mut tr = Trace::create(&args[2]);
+    let n = args.get(4).map(|s| s.parse::<usize>().unwrap()).unwrap_or(1000);
+    let mut rng = Rng::new(env_u64("VERIF_SEED", 1));
+    let fs = Arc::new(ScriptedFs::new("s"));
+    let server = Server::new(fs.clone());
+    let pair = SeqPair::new();
+    let mut ops = abi.op_names();
+    ops.sort();
+    for i in 0..n {
+        let (mut bytes, script, opname): (Vec<u8>, Ret, String) = if i % 2 == 0 {
+            // mutate a well-formed request: flip bits, truncate, extend, lie in the length field
+            let opname = rng.pick(&ops).clone();
+            let we = rng.chance(1, 4);
+            let b = build(&abi, &mut rng, &opname, &[], we);
+            let mut bytes = b.bytes.clone();
+            if bytes.len() > 70_000 {
+                bytes.truncate(70_000);
+            }
+            for _ in 0..rng.range(1, 4) {
+                if bytes.is_empty() {
+                    break;
+                }
+                match rng.below(5) {
+                    0 => {
+                        let p = rng.below(bytes.len() as u64) as usize;
+                        bytes[p] ^= 1 << rng.below(8);
+                    }
+                    1 => {
+                        let nl = rng.below(bytes.len() as u64 + 1) as usize;
+                        bytes.truncate(nl);
+                    }
+                    2 => {
+                        let extra = rng.range(1, 100) as usize;
+                        let mut g = vec![0u8; extra];
+                        rng.fill(&mut g);
+                        bytes.extend(g);
+                    }
+                    3 => {
+                        if bytes.len() >= 4 {
+                            let l = boundary(&mut rng, 4) as u32;
+                            bytes[..4].copy_from_slice(&l.to_le_bytes());
+                        }
+                    }
+                    _ => {
+                        let p = rng.below(bytes.len().max(1) as u64) as usize;
+                        let q = (p + 8).min(bytes.len());
+                        let v = boundary(&mut rng, 8).to_le_bytes();
+                        bytes[p..q].copy_from_slice(&v[..q - p]);
+                    }
+                }
+            }
+            (bytes, b.script, opname)
+        } else {
+            let nl = *rng.pick(&[0usize, 1, 16, 39, 40, 41, 48, 56, 64, 80, 104, 128, 200, 4096]);
+            let mut bytes = vec![0u8; nl];
+            rng.fill(&mut bytes);
+            if nl >= 8 && rng.chance(3, 4) {
+                let code = rng.below(54) as u32;
+                bytes[4..8].copy_from_slice(&code.to_le_bytes());
+            }
+            if nl >= 4 && rng.chance(1, 2) {
+                bytes[..4].copy_from_slice(&(nl as u32).to_le_bytes());
+            }
+            (bytes, if rng.chance(1, 3) { rerr(&mut rng) } else { Ret::Unit }, "RAW".to_string())
+        };
+        if bytes.len() > (1 << 20) {
+            bytes.truncate(1 << 20);
+        }
+        fs.set(script.clone());
+        let cap = *rng.pick(&[0usize, 1, 15, 16, 17, 24, 100, 144, 160, 4096, 70_000]);
+        let trn = if rng.chance(1, 2) { "fusedev" } else { "virtiofs" };
+        let vu = rng.chance(1, 2);
+        let o = run_one(&server, &fs, &pair, &mut rng, trn, &bytes, cap, vu);
+        // the opcode the server saw (if a whole header was supplied) names the transaction
+        let code = if bytes.len() >= 40 { u32le(&bytes, 4) as u64 } else { u64::MAX };
+        let seen = ops.iter().find(|o| abi.konst(abi.op(o)["code"].as_str().unwrap()) == code).cloned()
+            .unwrap_or_else(|| if code == abi.konst("FUSE_INIT") { "INIT".to_string() } else { "HOLE".to_string() });
+        let unique = if bytes.len() >= 16 { u64le(&bytes, 8) } else { 0 };
+        let b = Built { bytes: bytes.clone(), req: hdr_json(&bytes, unique), script, cap_hint: 0 };
+        emit_tx(&mut tr, &abi, &fs, trn, &seen, "random", &b, &o, json!({"cap": cap, "from": opname, "hex": if bytes.len() <= 256 { bytes.iter().map(|x| format!("{x:02x}")).collect::<String>() } else { String::new() }}));
+    }
+    tr.emit(&json!({"e": "End", "n": tr.n}));
+    tr.flush();
+}
+
+fn main() {
+    let args: Vec<String> = std::env::args().collect();
+    match args.get(3).map(|s| s.as_str()) {
+        Some("classes") => run_classes(&args),
+        Some("random") => run_random(&args),
+        _ => run_wf(&args),
+    }
 }
